@@ -273,6 +273,7 @@ func init() {
 		Run: func(c *Ctx) {
 			ruleTagBounds(c)
 			ruleTagPreserve(c)
+			ruleTagHelpers(c)
 		},
 	})
 }
